@@ -71,6 +71,9 @@ def world(tss, n_steps, script, perm_p, perm_s, rev_ports, rev_state,
         spec['schema']['bonus'] = {'num2': dict(sched.NUM)}
         spec['update']['shared']['num2'] = 1
         spec['update']['bonus'] = {'num2': 1}
+        # a variable whose initial-state value differs from its default
+        spec['schema']['shared']['base'] = dict(sched.NUM)
+        spec['update']['shared']['base'] = 1
         ports = {'priv': (f's{i}',), 'shared': ('shared',),
                  'bonus': {'num2': ('shared', 'num2')}}
         if rev_ports:
@@ -89,6 +92,10 @@ def world(tss, n_steps, script, perm_p, perm_s, rev_ports, rev_state,
         # same, but named so that a chain's tail sorts before the other
         # chain's head: st0 -> st1 and st2 -> st3
         step_ids, deps = [0, 1, 2, 3], {1: [0], 3: [2]}
+    elif layout == 'xchain':
+        # st0 -> st1 -> {st2, st3}; st3 is placed in a compartment and
+        # reaches its dependency through '..' (see the end of world())
+        step_ids, deps = [0, 1, 2, 3], {1: [0], 2: [1], 3: [1]}
     elif layout == 'recruit':
         # st0 adds a child under 'kids' in its 2nd run; st1 is ordinary
         step_ids, deps = [0, 1], {}
@@ -133,22 +140,41 @@ def world(tss, n_steps, script, perm_p, perm_s, rev_ports, rev_state,
     topology = {}
     for k in names:
         topology[k] = topo_p.get(k) or topo_s.get(k)
-    state = {'shared': {'num': 0, 'num2': 0, 'tok': (),
-                        'arr': np.array([0, 0])}}
+    # the initial state also holds keys that nothing declares (ignored by
+    # the engine), listed first; 'base' starts away from its default
+    state = {'meta': {'x': 1},
+             'shared': {'note': 'n', 'num': 0, 'num2': 0, 'tok': (),
+                        'arr': np.array([0, 0]), 'base': 7}}
     if layout == 'recruit':
         state['kids'] = {'k0': {'v': 1}}
     for i in range(len(tss)):
         state[f's{i}'] = {'num': 0}
     if rev_state:
-        state = dict(reversed(list(state.items())))
+        state = {k: (dict(reversed(list(v.items())))
+                     if isinstance(v, dict) else v)
+                 for k, v in reversed(list(state.items()))}
+    if layout == 'xchain':
+        # st3 lives in compartment c and names its dependency with '..'
+        def nest3(d, value):
+            return {('c' if k == 'st3' else k): ({'st3': value}
+                                                if k == 'st3' else v)
+                    for k, v in d.items()}
+        steps = nest3(steps, steps['st3'])
+        flow = nest3(flow, [('..', 'st1')])
+        topology = nest3(topology, {
+            port: ('..',) + path
+            for port, path in topology['st3'].items()})
     return {'processes': processes, 'steps': steps, 'flow': flow,
             'topology': topology, 'state': state, 'script': list(script),
             'family': 'O', 'procs': [(ts, 'always') for ts in tss],
             'perm': (tuple(perm_p), tuple(perm_s), rev_ports, rev_state),
             'tss': tuple(tss), 'n_steps': n_steps, 'gate': gate,
             'step_ids': step_ids,
-            'generation': {f'st{k}': (1 if k in deps else 0)
-                           for k in step_ids}}
+            'generation': {f'st{k}': _depth(k, deps) for k in step_ids}}
+
+
+def _depth(k, deps):
+    return 1 + max(_depth(d, deps) for d in deps[k]) if deps.get(k) else 0
 
 
 def canon_rows(ex):
@@ -316,7 +342,7 @@ def _norm_snapshot(snap):
 
 
 def perms(n_p, n_s):
-    n_s = {'chains': 4, 'chains2': 4, 'recruit': 2}.get(n_s, n_s)
+    n_s = {'chains': 4, 'chains2': 4, 'xchain': 4, 'recruit': 2}.get(n_s, n_s)
     for pp in itertools.permutations(range(n_p)):
         for ps in itertools.permutations(range(n_s)):
             for rev_ports in (False, True):
@@ -632,7 +658,7 @@ def jobs(ctx):
         for tss in combos[::5] if ctx.quick else combos:
             if n == 3 and ctx.quick:
                 continue
-            for layout in ('chains', 'chains2', 'recruit'):
+            for layout in ('chains', 'chains2', 'recruit', 'xchain'):
                 for sc in scripts[:2] if ctx.quick else scripts:
                     out.append((tss, layout, sc))
     # one process is quiet at its first poll(s) and starts later
@@ -669,3 +695,6 @@ def replay(case):
 
 RULE += (
     ' Every process also reaches one variable through a tuple-wired and a dictionary-wired port (both contributions must count in any port order).')
+
+RULE += (
+    ' The initial state holds a variable away from its default and keys that nothing declares (listed first, or last when the state order is reversed - inner dictionaries are reversed too). Layout xchain: st0 -> st1 -> {st2, st3} with st3 inside a compartment, naming its dependency through "..": st2 and st3 are one layer.')
